@@ -120,6 +120,8 @@ class ExtendedEOF(EOF):
             self.pca.fit(X, dim=self.sample_name)
             X = self.pca.data["scores"]
             X = X.rename({"mode": self.feature_name})
+        sample_name = self.sample_name
+        feature_name = self.feature_name
 
         # Construct the time-delayed version of the original time series
         tau = self._params["tau"]
@@ -127,11 +129,11 @@ class ExtendedEOF(EOF):
         shift = np.arange(embedding) * tau
         X_extended = []
         for i in shift:
-            X_extended.append(X.shift(sample=-i))
+            X_extended.append(X.shift({sample_name: -i}))
         X_extended = xr.concat(X_extended, dim="embedding")
         n_samples_cut = (embedding - 1) * tau
-        n_samples_kept = X_extended.sizes["sample"] - n_samples_cut
-        X_extended = X_extended.isel(sample=slice(None, n_samples_kept))
+        n_samples_kept = X_extended.sizes[sample_name] - n_samples_cut
+        X_extended = X_extended.isel({sample_name: slice(None, n_samples_kept)})
         X_extended.coords.update({"embedding": shift})
 
         # Perform standard PCA on extended data
@@ -158,7 +160,7 @@ class ExtendedEOF(EOF):
         if self.pca:
             self.data["components"] = xr.dot(
                 self.pca.data["components"].rename({"mode": "temp"}),
-                self.data["components"].rename({"feature": "temp"}),
+                self.data["components"].rename({feature_name: "temp"}),
                 dims="temp",
             )
 
